@@ -25,6 +25,7 @@ def check(chk):
     _dom4(chk)
     _dom5(chk)
     _pair2(chk)
+    _keyed_waits(chk)
     _table0(chk)
     _type1(chk)
 
@@ -345,6 +346,63 @@ PARKED = {
 
 def _queue_like(name):
     return name is not None and (name == "queue" or name.endswith("_queue") or name.endswith(".queue"))
+
+
+def _keyed_waits(chk):
+    """PAIR-2k: where the registration key of a clearing callback is remembered per wait (stored under the queue), several waits can be
+    outstanding at once; the callback then removes *its own* registration through that key and clears *its own* queue.  Removing by
+    method (`remove_handler(self.cb)`) drops the handlers of all the other outstanding waits, which are then never cleared.
+    Also the stop loops: every mode that has to stop is waited for -- the selection in the loop is exactly the stated condition."""
+    repo = chk.repo
+    n = 0
+    for cls in repo.all_classes("mpf/"):
+        for m in cls.methods.values():
+            for a in walk_local(m.node):
+                if not (isinstance(a, ast.Assign) and isinstance(a.value, ast.Call) and call_attr(a.value) == "add_handler" and kwarg(a.value, "queue") is not None
+                        and isinstance(a.targets[0], ast.Name)):
+                    continue
+                key, q = a.targets[0].id, src(kwarg(a.value, "queue"))
+                cb = a.value.args[1] if len(a.value.args) > 1 else kwarg(a.value, "handler")
+                if cb is None or not src(cb).startswith("self."):
+                    continue
+                stores = [x for x in walk_local(m.node) if isinstance(x, ast.Assign) and isinstance(x.targets[0], ast.Subscript) and src(x.targets[0].slice) == q
+                          and src(x.value) == key]
+                if not stores:
+                    continue
+                n += 1
+                cbn = src(cb)[5:]
+                chk.analysed(m)
+                table = src(stores[0].targets[0].value)
+                for m2 in cls.methods.values():
+                    for c in m2.calls():
+                        if call_attr(c) in ("remove_handler", "remove_handler_by_event") and any(src(x) == src(cb) for x in list(c.args) + [k.value for k in c.keywords]):
+                            chk.ob("PAIR-2", "%s.%s (clears one wait, registered per queue) is removed only through its own key" % (cls.name, cbn), False,
+                                   m2.where(c), detail="`%s` removes the handlers of every outstanding wait; the other queues are never cleared" % short(c, 70),
+                                   construct=m2.ident, text="clearing callback %s removed by method in %s" % (cbn, m2.name))
+                f = cls.methods.get(cbn)
+                chk.need(f is not None, "PAIR-2", "%s has the clearing callback %s" % (cls.name, cbn), m)
+                chk.analysed(f)
+                cfg = f.cfg()
+                rk = [nn for nn, c in cfg.calls_named("remove_handler_by_key") if c.args and isinstance(c.args[0], ast.Subscript) and src(c.args[0].slice) == "queue"]
+                cl = [nn for nn, c in cfg.calls_named("clear") if src(c.func.value) == "queue"]
+                fg = [nn for nn in cfg.nodes if nn.kind == "stmt" and isinstance(nn.ast, ast.Delete) and any(isinstance(t, ast.Subscript) and src(t.slice) == "queue" for t in nn.ast.targets)]
+                exits = [x.id for x in cfg.nodes if x.kind == "exit"]
+                ok = len(rk) == 1 and len(cl) == 1 and len(fg) == 1 and all(cfg.path_avoiding(cfg.entry.id, exits, [x.id]) is None for x in (rk[0], cl[0], fg[0]))
+                chk.ob("PAIR-2", "%s.%s removes its own registration (by the key stored for its queue), forgets it and clears its queue on every path" % (cls.name, cbn),
+                       ok, f.where(), construct=f.ident, text="keyed clearing callback " + cbn)
+    chk.ob("PAIR-2", "keyed clearing callbacks examined", n >= 1, "mpf:1", detail=str(n), nontrivial=False)
+    # stop loops: who is waited for
+    for rel, qual, want in (("mpf/modes/game/code/game.py", "Game._stop_game_modes", {("mode.is_game_mode", True), ("mode.active", True)}),
+                            ("mpf/core/mode_controller.py", "ModeController._ball_ending", {("mode.is_game_mode", True), ("mode.auto_stop_on_ball_end", True)})):
+        f = repo.func(rel, qual)
+        cfg = f.cfg()
+        st = [(nn, c) for nn, c in cfg.calls_named("stop") if src(c.func.value) == "mode" and kwarg(c, "callback") is not None]
+        chk.need(len(st) == 1, "PAIR-2", "%s stops the modes with a completion callback" % qual, f)
+        from sa.cfg import canon_set
+        g = {(k, v) for k, v in canon_set(cfg.guards_at(st[0][0].id)) if k.startswith("mode.") or "mode." in k}
+        g = {(k[4:], not v) if k.startswith("not ") else (k, v) for k, v in g}
+        chk.ob("PAIR-2", "%s waits for every mode that matches %s - no further condition excludes a mode (one already stopping still has to finish)" %
+               (qual, sorted(k for k, _ in want)), g == want, f.where(st[0][1]), detail="selection %s" % sorted(g), construct=f.ident, text="stop loop selection")
 
 
 def _pair2(chk):
@@ -678,6 +736,11 @@ def battery():
         M("twin: reordered independent stmts", G, "        self._stopping_modes.remove(mode)\n        if not self._stopping_modes:\n            self._stopping_queue.clear()\n            self._stopping_queue = None", "        self._stopping_modes.remove(mode)\n        if not self._stopping_modes:\n            q = self._stopping_queue\n            self._stopping_queue.clear()\n            self._stopping_queue = None", None),
         M("wait ignored when the event has no callback", EV, "            if queue.waiter:\n                queue.event = asyncio.Event()", "            if queue.waiter and callback:\n                queue.event = asyncio.Event()", "DOM-4"),
         M("starting event re-posted with the stored start kwargs", "mpf/core/mode.py", "callback=self._started, **starting_kwargs)", "callback=self._started, **self.start_event_kwargs)", "FLOW-2"),
+        M("relay wait's handler removed by method (drops every other outstanding relay)", "mpf/config_players/queue_relay_player.py", "        self.machine.events.remove_handler_by_key(instance_dict[queue])\n        del instance_dict[queue]", "        self.machine.events.remove_handler(self._callback)\n        del instance_dict[queue]", "PAIR-2"),
+        M("relay callback keeps its registration record", "mpf/config_players/queue_relay_player.py", "        self.machine.events.remove_handler_by_key(instance_dict[queue])\n        del instance_dict[queue]\n", "        self.machine.events.remove_handler_by_key(instance_dict[queue])\n", "PAIR-2"),
+        M("game stop does not wait for a mode that is already stopping", G, "            if mode.is_game_mode and mode.active:\n                self._stopping_modes.append(mode)", "            if mode.is_game_mode and mode.active and not mode.stopping:\n                self._stopping_modes.append(mode)", "PAIR-2"),
+        M("ball end does not wait for a mode that is already stopping", MC, "            if mode.auto_stop_on_ball_end:\n", "            if mode.auto_stop_on_ball_end and not mode.stopping:\n", "PAIR-2"),
+        M("twin: game stop loop with an early continue", G, "            if mode.is_game_mode and mode.active:\n                self._stopping_modes.append(mode)\n                mode.stop(callback=partial(self._game_mode_stopped, mode=mode))", "            if not mode.is_game_mode or not mode.active:\n                continue\n            self._stopping_modes.append(mode)\n            mode.stop(callback=partial(self._game_mode_stopped, mode=mode))", None),
     ]
 
 
